@@ -1,1 +1,264 @@
-// controlled scheduler (filled in later)
+// Controlled scheduler over the Memfs guard hook (H1): real threads running the real Memfs, one runnable at a
+// time, a schedule = the sequence of thread choices at critical-section boundaries; plus the free-running mode
+// used by the stress runs (the hook then only tracks which threads are between "before acquire" and "release").
+use std::{
+    cell::Cell,
+    sync::{
+        atomic::{AtomicBool, AtomicI64, AtomicU64, AtomicUsize, Ordering},
+        Arc, Condvar, Mutex,
+    },
+};
+
+use rivia::{prelude::*, sys::verif::{set_guard_hook, GuardEvent}};
+
+use crate::fsops::*;
+
+thread_local! {
+    static TID: Cell<Option<usize>> = Cell::new(None);
+    static HOLDING: Cell<u32> = Cell::new(0);
+    static HELD_WRITE: Cell<bool> = Cell::new(false);
+    static FIRST_ACQ: Cell<bool> = Cell::new(true);
+}
+
+#[derive(Clone, Copy, PartialEq, Debug)]
+enum TState {
+    Starting,
+    Parked,
+    Running,
+    Finished,
+}
+
+struct State {
+    threads: Vec<TState>,
+    current: Option<usize>,
+    clock: u64,
+    nested: Vec<String>,
+    guard_events: u64,
+}
+
+pub struct Sched {
+    m: Mutex<State>,
+    cv: Condvar,
+}
+
+static CONTROLLED: AtomicBool = AtomicBool::new(false);
+static SCHED: Mutex<Option<Arc<Sched>>> = Mutex::new(None);
+// free-running mode bookkeeping
+pub static IN_SECTION: AtomicI64 = AtomicI64::new(0); // threads between before-acquire and release
+pub static FREE_EVENTS: AtomicU64 = AtomicU64::new(0);
+pub static FREE_NESTED: AtomicUsize = AtomicUsize::new(0);
+
+fn current_sched() -> Option<Arc<Sched>> {
+    SCHED.lock().ok().and_then(|g| g.clone())
+}
+
+pub fn install_hook() {
+    set_guard_hook(Some(Arc::new(|ev: GuardEvent| {
+        let tid = TID.with(|t| t.get());
+        let tid = match tid {
+            Some(t) => t,
+            None => return, // not a program thread (set-up, replays, observers)
+        };
+        match ev {
+            GuardEvent::BeforeRead | GuardEvent::BeforeWrite => {
+                let holding = HOLDING.with(|h| h.get());
+                if CONTROLLED.load(Ordering::SeqCst) {
+                    let s = match current_sched() {
+                        Some(s) => s,
+                        None => return,
+                    };
+                    if holding > 0 {
+                        let held_write = HELD_WRITE.with(|h| h.get());
+                        let what = format!(
+                            "{} while holding a {} guard",
+                            if ev == GuardEvent::BeforeWrite { "write_guard()" } else { "read_guard()" },
+                            if held_write { "write" } else { "read" }
+                        );
+                        s.m.lock().unwrap().nested.push(what.clone());
+                        if held_write || ev == GuardEvent::BeforeWrite {
+                            // would block on its own guard for ever: leave the call by unwinding
+                            panic!("verif: nested guard acquisition that self-deadlocks: {}", what);
+                        }
+                    } else if !FIRST_ACQ.with(|f| f.replace(false)) {
+                        s.yield_now(tid);
+                    }
+                    s.m.lock().unwrap().guard_events += 1;
+                } else {
+                    if holding > 0 {
+                        FREE_NESTED.fetch_add(1, Ordering::SeqCst);
+                    }
+                    IN_SECTION.fetch_add(1, Ordering::SeqCst);
+                    FREE_EVENTS.fetch_add(1, Ordering::Relaxed);
+                }
+                HOLDING.with(|h| h.set(holding + 1));
+                if ev == GuardEvent::BeforeWrite {
+                    HELD_WRITE.with(|h| h.set(true));
+                }
+            },
+            GuardEvent::ReleaseRead | GuardEvent::ReleaseWrite => {
+                HOLDING.with(|h| h.set(h.get().saturating_sub(1)));
+                if ev == GuardEvent::ReleaseWrite {
+                    HELD_WRITE.with(|h| h.set(false));
+                }
+                if !CONTROLLED.load(Ordering::SeqCst) {
+                    IN_SECTION.fetch_sub(1, Ordering::SeqCst);
+                    FREE_EVENTS.fetch_add(1, Ordering::Relaxed);
+                }
+            },
+        }
+    })));
+}
+
+impl Sched {
+    fn yield_now(&self, tid: usize) {
+        let mut g = self.m.lock().unwrap();
+        g.threads[tid] = TState::Parked;
+        g.current = None;
+        self.cv.notify_all();
+        while g.current != Some(tid) {
+            g = self.cv.wait(g).unwrap();
+        }
+        g.threads[tid] = TState::Running;
+    }
+    fn finish(&self, tid: usize) {
+        let mut g = self.m.lock().unwrap();
+        g.threads[tid] = TState::Finished;
+        if g.current == Some(tid) {
+            g.current = None;
+        }
+        self.cv.notify_all();
+    }
+    fn tick(&self) -> u64 {
+        let mut g = self.m.lock().unwrap();
+        g.clock += 1;
+        g.clock
+    }
+}
+
+#[derive(Clone, Debug)]
+pub struct CallRec {
+    pub thread: usize,
+    pub index: usize,
+    pub op: Op,
+    pub start: u64,
+    pub end: u64,
+    pub res: Res,
+}
+
+pub struct Execution {
+    pub calls: Vec<CallRec>,
+    pub choices: Vec<(usize, usize)>, // (enabled count, picked index) at every scheduling point
+    pub nested: Vec<String>,
+    pub guard_events: u64,
+    pub final_snapshot: Snapshot,
+}
+
+/// Run `program` (one Vec<Op> per thread) on `mem` under the schedule prefix `prefix` (then first-enabled).
+pub fn run_controlled(mem: Arc<Memfs>, program: &[Vec<Op>], prefix: &[usize]) -> Execution {
+    let n = program.len();
+    let s = Arc::new(Sched { m: Mutex::new(State { threads: vec![TState::Starting; n], current: None, clock: 0, nested: vec![], guard_events: 0 }), cv: Condvar::new() });
+    *SCHED.lock().unwrap() = Some(s.clone());
+    CONTROLLED.store(true, Ordering::SeqCst);
+    let results: Arc<Mutex<Vec<CallRec>>> = Arc::new(Mutex::new(vec![]));
+    let mut choices = vec![];
+    std::thread::scope(|scope| {
+        for (tid, ops) in program.iter().enumerate() {
+            let s = s.clone();
+            let mem = mem.clone();
+            let results = results.clone();
+            scope.spawn(move || {
+                TID.with(|t| t.set(Some(tid)));
+                HOLDING.with(|h| h.set(0));
+                HELD_WRITE.with(|h| h.set(false));
+                for (i, op) in ops.iter().enumerate() {
+                    s.yield_now(tid); // the call becomes runnable here: its start stamp is taken when it is picked
+                    FIRST_ACQ.with(|f| f.set(true));
+                    let start = s.tick();
+                    let res = exec(&*mem, op);
+                    // a call that unwound out of a critical section leaves the counters dirty
+                    HOLDING.with(|h| h.set(0));
+                    HELD_WRITE.with(|h| h.set(false));
+                    let end = s.tick();
+                    results.lock().unwrap().push(CallRec { thread: tid, index: i, op: op.clone(), start, end, res });
+                }
+                TID.with(|t| t.set(None));
+                s.finish(tid);
+            });
+        }
+        // the scheduler
+        let mut step = 0;
+        loop {
+            let mut g = s.m.lock().unwrap();
+            while g.current.is_some() || g.threads.iter().any(|t| *t == TState::Starting || *t == TState::Running) {
+                g = s.cv.wait(g).unwrap();
+            }
+            let enabled: Vec<usize> = g.threads.iter().enumerate().filter(|(_, t)| **t == TState::Parked).map(|(i, _)| i).collect();
+            if enabled.is_empty() {
+                break;
+            }
+            let pick = prefix.get(step).cloned().unwrap_or(0).min(enabled.len() - 1);
+            choices.push((enabled.len(), pick));
+            step += 1;
+            g.current = Some(enabled[pick]);
+            g.threads[enabled[pick]] = TState::Running;
+            s.cv.notify_all();
+        }
+    });
+    CONTROLLED.store(false, Ordering::SeqCst);
+    *SCHED.lock().unwrap() = None;
+    let g = s.m.lock().unwrap();
+    let mut calls = results.lock().unwrap().clone();
+    calls.sort_by_key(|c| c.start);
+    Execution { calls, choices, nested: g.nested.clone(), guard_events: g.guard_events, final_snapshot: mem.verif_snapshot() }
+}
+
+/// next schedule prefix in depth-first order, None when all schedules have been enumerated
+pub fn next_prefix(choices: &[(usize, usize)]) -> Option<Vec<usize>> {
+    let mut i = choices.len();
+    while i > 0 {
+        i -= 1;
+        if choices[i].1 + 1 < choices[i].0 {
+            let mut p: Vec<usize> = choices[..i].iter().map(|c| c.1).collect();
+            p.push(choices[i].1 + 1);
+            return Some(p);
+        }
+    }
+    None
+}
+
+/// Free-running execution: the same program on real threads released by a barrier; stamps from a global clock.
+pub fn run_free(mem: Arc<Memfs>, program: &[Vec<Op>], clock: &AtomicU64) -> Vec<CallRec> {
+    let results: Arc<Mutex<Vec<CallRec>>> = Arc::new(Mutex::new(vec![]));
+    // a spinning start line: the threads leave it within nanoseconds of each other, so that calls really overlap
+    let ready = Arc::new(AtomicUsize::new(0));
+    let nthreads = program.len();
+    std::thread::scope(|scope| {
+        for (tid, ops) in program.iter().enumerate() {
+            let mem = mem.clone();
+            let results = results.clone();
+            let ready = ready.clone();
+            scope.spawn(move || {
+                TID.with(|t| t.set(Some(tid)));
+                HOLDING.with(|h| h.set(0));
+                HELD_WRITE.with(|h| h.set(false));
+                ready.fetch_add(1, Ordering::SeqCst);
+                let t0 = std::time::Instant::now();
+                while ready.load(Ordering::SeqCst) < nthreads && t0.elapsed().as_millis() < 200 {
+                    std::hint::spin_loop();
+                }
+                let mut mine = vec![];
+                for (i, op) in ops.iter().enumerate() {
+                    let start = clock.fetch_add(1, Ordering::SeqCst);
+                    let res = exec(&*mem, op);
+                    let end = clock.fetch_add(1, Ordering::SeqCst);
+                    mine.push(CallRec { thread: tid, index: i, op: op.clone(), start, end, res });
+                }
+                TID.with(|t| t.set(None));
+                results.lock().unwrap().extend(mine);
+            });
+        }
+    });
+    let mut calls = results.lock().unwrap().clone();
+    calls.sort_by_key(|c| c.start);
+    calls
+}
